@@ -335,6 +335,8 @@ def check(ctx):
                         rep.proved("R-C66-copy", f"{init.module.relpath}:{init.qualname} {norm(s_)}", "stores a copy of the argument")
     rep.extra["registries"] = {v: p for v, (p, _, _) in cvars.items()}
     rep.extra["values_mutated_in_place"] = value_mutated
+    from .c66_extra import check_extra
+    check_extra(ctx, rep)
     return rep
 
 
